@@ -46,6 +46,8 @@ class Lab:
             for k, r in enumerate(insts):
                 ds = Dataset()
                 for key, v in r.items():
+                    if v in (0, "0") or (isinstance(v, (list, tuple)) and len(v) == 0):
+                        continue                      # the instance has no value for this attribute
                     setattr(ds, key, text(v))
                 ds.SOPClassUID = "1.2.840.10008.5.1.4.1.1.2"
                 ds.file_meta = FileMetaDataset()
